@@ -131,15 +131,15 @@ CLAIMED = {
         "kept, the cache used and filled only by a thread without overlays or overrides. Env._set_item (both modes, sync partner recursion, "
         "$UPDATE_OS_ENVIRON mirroring and its rollback), Env._del_item, Env.replace_env, Env.__getitem__ (materialised callable defaults) and the "
         "layered-dict primitives keep INV on normal AND exceptional exit (i.e. the cache is dropped whenever the shared layer changed), and "
-        "__getitem__ drops the cache whenever it hands out an editable value. Scalar converter/detyper pairs (to_bool/bool_to_str, "
+        "__getitem__ drops the cache whenever it hands out an editable value. SubprocSpec.prep_env_subproc computes the child's mapping while exactly this stage's overlay is swapped in "
+        "and hands the child that mapping. Scalar converter/detyper pairs (to_bool/bool_to_str, "
         "to_bool_or_none, to_bool_or_int, to_int_or_none, to_shlvl/adjust_shlvl) are proved inverse on all valid values (string theory). "
         "Enum (complete): value types of the real registry vs the `editable` predicate. Bounded stand-ins (never counted as proved): "
         "convert(detype(v)) == v over all registered variables x a value pool; cached vs recomputed detype() after every history of <= 4 (thorough 5) "
         "operations out of 12 (set, del, hold, edit held, edit direct, swap+launch, read default, another thread inside a swap, equal-but-different re-assign).",
    note="KNOWN FINDINGS (recorded): an edit through a reference obtained before the last launch is not seen (cache dropped on READ of a mutable); six lossy "
         "string formats ($PATHEXT / csv sets with empty or separator-containing elements, non-integral history sizes, bools in int variables, None in "
-        "pattern / logfile variables). Two genuine defects repaired (fix: 7aeafb3, 2d58ace). Unverified: SubprocSpec.prep_env_subproc / cmds_to_specs "
-        "alignment of per-command overlays, LsColors / EnvPath / history-tuple / csv converters by SMT (bounded only), the detyper of each variable as a "
+        "pattern / logfile variables). Two genuine defects repaired (fix: 7aeafb3, 2d58ace). Unverified: LsColors / EnvPath / history-tuple / csv converters by SMT (bounded only), the detyper of each variable as a "
         "function (det) that may raise, ChainMap semantics of dict(self._d), os.environ mirroring content. Trusted: pyvc engine + models + z3/cvc5.",
    design="§3 C10"),
  "C07": dict(
